@@ -563,7 +563,7 @@ theorem InvB_step {P : Params} {s s' : St} {e : Ev} (h : InvB s) (hA : InvA P s)
         · cases hs
       rw [this]; exact h.errBad)
   | mJoin => exact InvB_mJoin h hs
-  | wTop i =>
+  | wTop i o0 =>
     have f := wTop_frame hs
     refine InvB_wframe h f ?_
     have : s'.err = s.err := by
@@ -571,7 +571,12 @@ theorem InvB_step {P : Params} {s s' : St} {e : Ev} (h : InvB s) (hA : InvA P s)
       split at hs; · cases hs
       split at hs; · cases hs
       split at hs
-      · split at hs <;> cases hs <;> rfl
+      · split at hs
+        · cases hs; rfl
+        · cases hs; rfl
+        · cases hs; rfl
+        · split at hs <;> cases hs
+          rfl
       · cases hs
     rw [this]; exact h.errBad
   | wEnc i full newOut =>
@@ -686,7 +691,7 @@ theorem InvA_step {P : Params} {s s' : St} {e : Ev} (h : InvA P s) (hB : InvB s)
   | mExitOne i => exact InvA_mExitOne h hs
   | mExitIdle => exact InvA_mExitIdle h hs
   | mJoin => exact InvA_mJoin hs
-  | wTop i => exact InvA_wTop h hs
+  | wTop i o0 => exact InvA_wTop h hs
   | wEnc i full newOut => exact InvA_wEnc h hs
   | wEncErr i r => exact InvA_wEncErr h hs
   | wFb i => exact InvA_wFb h hs
